@@ -55,9 +55,12 @@ pub enum Entry {
     AddrRegister,
     FromRegistry,
     Setup,
+    /// from_registry() a second time, after the first instance has been stopped and awaited: the
+    /// registry spawns (and keeps) a fresh one
+    FromRegistryAgain,
 }
 
-pub const ENTRIES: [Entry; 23] = [
+pub const ENTRIES: [Entry; 24] = [
     Entry::Spawn,
     Entry::SpawnOwning,
     Entry::SpawnDefault,
@@ -81,6 +84,7 @@ pub const ENTRIES: [Entry; 23] = [
     Entry::AddrRegister,
     Entry::FromRegistry,
     Entry::Setup,
+    Entry::FromRegistryAgain,
 ];
 
 #[derive(Clone, Copy, Debug, PartialEq, Eq)]
@@ -190,7 +194,7 @@ fn spawn_via(e: Entry) -> Spawned {
         Entry::BuildOnStreamSpawnOwning => Spawned::Own(hannibal::build(probe()).on_stream(new_stream()).spawn_owning()),
         Entry::BuildBoundedOnStreamSpawn => Spawned::Addr(hannibal::build(probe()).bounded_on_stream(1, new_stream()).spawn()),
         Entry::BuildBoundedOnStreamSpawnOwning => Spawned::Own(hannibal::build(probe()).bounded_on_stream(1, new_stream()).spawn_owning()),
-        Entry::BuildRegister | Entry::AddrRegister | Entry::FromRegistry | Entry::Setup => unreachable!("registry entry points run inside the client task (spawn_in_task)"),
+        Entry::BuildRegister | Entry::AddrRegister | Entry::FromRegistry | Entry::Setup | Entry::FromRegistryAgain => unreachable!("registry entry points run inside the client task (spawn_in_task)"),
     }
 }
 
@@ -321,6 +325,12 @@ async fn spawn_in_task(e: Entry) -> Addr<P> {
         Entry::BuildRegister => hannibal::build(probe()).unbounded().register().await.expect("register").0,
         Entry::AddrRegister => probe().spawn().register().await.expect("register").0,
         Entry::FromRegistry => P::from_registry().await,
+        Entry::FromRegistryAgain => {
+            let mut first = P::from_registry().await;
+            let _ = first.stop();
+            let _ = first.await;
+            P::from_registry().await
+        }
         _ => {
             P::setup().await.expect("setup");
             P::try_from_registry().expect("registered after setup")
@@ -368,13 +378,18 @@ impl Scene for S {
             }
         });
         STREAM.with(|s| *s.borrow_mut() = None);
-        if matches!(self.entry, Entry::BuildRegister | Entry::AddrRegister | Entry::FromRegistry | Entry::Setup) {
+        if matches!(self.entry, Entry::BuildRegister | Entry::AddrRegister | Entry::FromRegistry | Entry::Setup | Entry::FromRegistryAgain) {
             let (entry, prog) = (self.entry, self.prog);
             exec.spawn_client(0, async move {
                 let a = spawn_in_task(entry).await;
                 let mut h = Handles::default();
                 h.addr.push(Some(a));
                 run_client(0, h, ops_for(prog, false)).await;
+                // the client has let go of everything it got: a registered service is kept by
+                // the registry, so it is still running (operation 900 of the log)
+                crate::world::log(Ev::Begin { c: 0, i: 900 });
+                let running = P::already_running().await == Some(true);
+                crate::world::log(Ev::End { c: 0, i: 900, r: crate::world::Res::Bool(running) });
             });
             return;
         }
@@ -465,6 +480,18 @@ impl Scene for S {
                     key: format!("C18/{RUNTIME}/client-panicked/entry={:?}/program={:?}", self.entry, self.prog),
                     detail: format!("on {RUNTIME}: client op {} panicked", o.i),
                 });
+            }
+        }
+        if let Some(o) = an.op(0, 900) {
+            if !matches!(self.prog, Prog::StopAwaitJoin | Prog::PanicAwaitJoin) {
+                crate::check::oblige("actor-runs-after-spawn-returned");
+                if o.res != Some(crate::world::Res::Bool(true)) {
+                    out.push(Violation {
+                        clause: "actor-runs-after-spawn-returned",
+                        key: format!("C18/{RUNTIME}/registered-service-gone/entry={:?}/program={:?}", self.entry, self.prog),
+                        detail: format!("on {RUNTIME}: after {:?} returned and its caller let go of the address, the registry does not report the service as running ({:?})", self.entry, o.res),
+                    });
+                }
             }
         }
         if t.res.end == crate::vexec::EndReason::Spin {
